@@ -33,10 +33,15 @@ ASSUMPTIONS = [
     'map and column table; one batch',
     'float arithmetic is exact rational arithmetic; NaN only arises from 0/0 of concrete zeros',
     'forms added after seeding rounds: a second get_amplitudes_true call on the same model; sampling rates 1000, 30000 and 2500 Hz',
+    'round 8: get_depths batching -- the loader re-binds the literal `nbatch = 50000` of get_depths to 2, 3 or 4 (AST '
+    'rewrite of that one assignment, regenerated from the current source; if the source has no such literal nothing is '
+    'rewritten) and spike counts k*nb + r with r in {0, 1, ...} are explored, on the assumption that get_depths is '
+    'parametric in its batch size (these configurations use a concrete column table); a counterexample is replayed on the UNMODIFIED code with a real-size input '
+    '(k*50000 + r spikes)',
     'round 7: a lone spike with positive features (finite depth expected); a NaN depth where a finite one is expected is a failed obligation',
 ]
 STUBS = []
-OUTSIDE = ['float rounding', 'get_depths batching beyond one batch of 50000 spikes', 'symbolic whitening']
+OUTSIDE = ['float rounding', 'get_depths with the real batch size of 50000 on the symbolic side (only replays use it)', 'symbolic whitening']
 WITNESS_CAP = {'quick': 40, 'thorough': 80}
 
 
@@ -66,6 +71,10 @@ def configs(tier):
             if variant == 2 and n > 2:
                 continue
             out.append({'kind': 'depths', 'n': n, 'variant': variant})
+    # batching of get_depths with the batch-size literal scaled down (see ASSUMPTIONS): n = k*nb + r
+    for nb, n in (((2, 3), (2, 4), (2, 5), (3, 4)) if quick else ((2, 2), (2, 3), (2, 4), (2, 5), (3, 3), (3, 4), (3, 6), (4, 5))):
+        for variant in ((2,) if quick else (0, 2)):
+            out.append({'kind': 'depths', 'n': n, 'variant': variant, 'nb': nb})
     return out
 
 
@@ -91,8 +100,14 @@ def _feat(variant, n, ncl):
     return f
 
 
+NBATCH_KEY = ('phylib.io.model', 'get_depths', 'nbatch')
+
+
 def run_config(cfg, e):
-    pkg = env.make_pkg(record=e.functions)
+    if cfg.get('nb'):
+        pkg = env.make_pkg(record=e.functions, literal_overrides={NBATCH_KEY: cfg['nb']})
+    else:
+        pkg = env.make_pkg(record=e.functions)
     kind = cfg['kind']
     e.concretize_shapes = True
 
@@ -229,7 +244,10 @@ def run_config(cfg, e):
             feat = _feat(cfg['variant'], n, ncl)
             m, _ = models.build_sym_model(pkg, nc, 'zigzag', 'I', 12)
             st = [e.int('st%d' % i, 0, T - 1) for i in range(n)]
-            cols = [[e.int('col%d_%d' % (t, k), 0, nc - 1) for k in range(ncl)] for t in range(T)]
+            if cfg.get('nb'):   # batching configs: concrete column table, symbolic spike->template map
+                cols = [[(t + 2 * k + 1) % nc for k in range(ncl)] for t in range(T)]
+            else:
+                cols = [[e.int('col%d_%d' % (t, k), 0, nc - 1) for k in range(ncl)] for t in range(T)]
             m.spike_templates = snp.ndarray(snp._fromlist(st, (n,)), 'int32')
             scl = [e.int('scl%d' % i, 0, T - 1) for i in range(n)]
             m.spike_clusters = snp.ndarray(snp._fromlist(scl, (n,)), 'int32')
@@ -238,7 +256,8 @@ def run_config(cfg, e):
             m.sparse_features = Bunch(data=snp.asarray(feat),
                                       cols=snp.ndarray(snp._fromlist([v for r in cols for v in r], (T, ncl)), 'int32'),
                                       rows=None)
-            e.case_builder = lambda ev: dict(cfg, st=ev(st), scl=ev(scl), cols=[ev(r) for r in cols])
+            e.case_builder = lambda ev: dict(cfg, st=ev(st), scl=ev(scl), cols=[ev(r) for r in cols],
+                                             real_nbatch=pkg.literals.get(NBATCH_KEY))
             try:
                 d = snp.asarray(m.get_depths()).a.tolist()
             except Exception as ex:
@@ -355,6 +374,21 @@ def replay(case):
     if kind == 'depths':
         n, T, ncl, nc = case['n'], 2, 2, 4
         feat = _feat(case['variant'], n, ncl)
+        case = dict(case)
+        if case.get('nb') and case.get('real_nbatch'):
+            # the symbolic run used batch size nb; the real code has real_nbatch: spike b*nb+p of the
+            # small case becomes spike b*R+p of a real-size one, the rest of each batch repeats its first spike
+            nb, R = case['nb'], int(case['real_nbatch'])
+            src = []
+            for b in range((n + nb - 1) // nb):
+                small = list(range(b * nb, min((b + 1) * nb, n)))
+                src += small + ([small[0]] * (R - nb) if len(small) == nb else [])
+            src = np.array(src)
+            feat = feat[src]
+            scl = case.get('scl', case['st'])
+            case['scl'] = [scl[i] for i in src]
+            case['st'] = [case['st'][i] for i in src]
+            n = len(src)
         m = models.build_real_model(nc, 'zigzag', 'I', 12)
         m.spike_templates = np.array(case['st'], dtype=np.int32)
         m.spike_clusters = np.array(case.get('scl', case['st']), dtype=np.int32)
